@@ -29,6 +29,14 @@ structure DState where
   srvMode : Bool := false
   pq : Option PutQuery := none
   pqSent : List (Addr × Bytes × Nat) := []
+  -- node stream
+  actor : Option Actor := none
+  nodeAddr : Addr := ⟨0, 0⟩
+  nreqs : List (String × Nat) := []
+  apiQ : List ApiMsg := []
+  immCallers : List Nat := []
+  immResolved : List Nat := []
+  outSeen : Nat := 0
 
 def DState.verify (st : DState) : Verify := fun k msg sig => st.sigs.contains (k, msg, sig)
 def DState.allow (st : DState) : Allow := fun req src =>
@@ -260,6 +268,233 @@ def step2 (st : DState) (toks : List String) : DState × String :=
       | none => (st, "bad-op"))
   | _ => (st, "bad-op")
 
+
+/-! ### node stream -/
+
+def kvOf (toks : List String) (key : String) : Option String :=
+  toks.findSome? fun t => if t.startsWith (key ++ "=") then some (t.drop (key.length + 1)).toString else none
+
+def reqKindWord : RequestType → String × String
+  | .ping => ("ping", "-")
+  | .findNode t => ("find_node", bytesToHex t.bytes)
+  | .getPeers t => ("get_peers", bytesToHex t.bytes)
+  | .getSignedPeers t => ("get_signed_peers", bytesToHex t.bytes)
+  | .getValue t _ _ => ("get", bytesToHex t.bytes)
+  | .put _ spec => ("put", bytesToHex spec.target.bytes)
+
+/-- canonical line of a datagram the node sent, and its request key -/
+def canonOut (own : Id) (to : Addr) (m0 : Message) : String × Option (String × Nat) :=
+  -- what the peer sees is the datagram: encode and decode it
+  let m := match Krpc.fromBytes (Krpc.toBytes m0) with
+    | .ok (some m') => m'
+    | _ => m0
+  let ver := match m.version with | none => "none" | some v => bytesToHex v
+  let ip := match m.requesterIp with | none => "none" | some a => showAddr a
+  let ro := if m.readOnly then 1 else 0
+  match m.mtype with
+  | .request r =>
+    let r2 : Request := if r.requesterId == own then r else { r with requesterId := ⟨List.replicate 20 0⟩ }
+    let (kind, target) := reqKindWord r.rtype
+    (s!"{showAddr to} v={ver} ip={ip} ro={ro} q {showRequest r2}", some (s!"{showAddr to}/{kind}/{target}", m.tid.toNat))
+  | .response r => (s!"{showAddr to} t={m.tid.toNat} v={ver} ip={ip} ro={ro} r {showReply (some (.response r))}", none)
+  | .error e => (s!"{showAddr to} t={m.tid.toNat} v={ver} ip={ip} ro={ro} e {e.code}", none)
+
+def showValueItem : Value → String
+  | .peers l => ",".intercalate (l.map showAddr)
+  | .signedPeers l => ",".intercalate (l.map fun p => bytesToHex p.k ++ ":" ++ toString p.t ++ ":" ++ bytesToHex p.sig)
+  | .immutable v => hz v
+  | .mutable i => s!"k={bytesToHex i.key} seq={i.seq} v={hz i.value} sig={bytesToHex i.sig} salt={match i.salt with | none => "none" | some s => hz s} target={bytesToHex i.target.bytes}"
+
+/-- the API facades on top of the sender-level events -/
+def facade (st : DState) (evs : List Event) : DState × List String :=
+  evs.foldl (fun (acc : DState × List String) ev =>
+    let st := acc.1
+    match ev with
+    | .value c (.immutable v) =>
+      if st.immResolved.contains c then acc
+      else ({ st with immResolved := c :: st.immResolved }, acc.2 ++ [s!"c{c}:some:{hz v}"])
+    | .value c v => (st, acc.2 ++ [s!"c{c}:item:{showValueItem v}"])
+    | .closed c =>
+      if st.immCallers.contains c then
+        (if st.immResolved.contains c then acc else ({ st with immResolved := c :: st.immResolved }, acc.2 ++ [s!"c{c}:none"]))
+      else (st, acc.2 ++ [s!"c{c}:end"])
+    | .nodes c l => (st, acc.2 ++ [s!"c{c}:nodes:{showNodes l}"])
+    | .putResult c (.ok t) => (st, acc.2 ++ [s!"c{c}:ok:{bytesToHex t.bytes}"])
+    | .putResult c (.error e) => (st, acc.2 ++ [s!"c{c}:{showPutErr e}"])
+    | .info c i => (st, acc.2 ++ [s!"c{c}:info:id={bytesToHex i.id.bytes} pub={match i.publicAddress with | none => "none" | some a => showAddr a} fw={if i.firewalled then 1 else 0} mode={if i.serverMode then "s" else "c"} rt={i.rtSize} srt={i.srtSize}"])) (st, [])
+
+def sortStrings (l : List String) : List String := (l.toArray.qsort (· < ·)).toList
+
+/-- drain what the model node sent and the caller-visible events into one output line -/
+def nodeFlush (st : DState) (a : Actor) : DState × String :=
+  let lines := a.out.map fun p => canonOut a.id p.1 p.2
+  let nreqs := lines.foldl (fun (m : List (String × Nat)) l => match l.2 with
+    | some (k, tid) => (k, tid) :: m.filter (·.1 != k)
+    | none => m) st.nreqs
+  let (st, evs) := facade st a.events
+  let a := { a with out := [], events := [] }
+  ({ st with actor := some a, nreqs := nreqs },
+   s!"sent=[{" | ".intercalate (sortStrings (lines.map (·.1)))}] ev=[{" | ".intercalate (sortStrings evs)}]")
+
+def nodeEnv (st : DState) : Env :=
+  { now := st.now, wall := 1700000000000000 + st.now / 1000, verify := st.verify }
+
+def kindNo : GetKind → Nat
+  | .findNode => 1 | .getPeers => 2 | .getSignedPeers => 3 | .getValue _ _ => 4
+
+def showSnapshot (st : DState) (a : Actor) : String :=
+  let hexId (i : Id) := bytesToHex i.bytes
+  let ids (l : List Id) := ",".intercalate (sortStrings (l.map hexId))
+  let cnt {β} (l : List (Id × List β)) := ",".intercalate (sortStrings (l.map fun p => s!"{hexId p.1}:{p.2.length}"))
+  let table (rt : RoutingTable) := ",".intercalate (sortStrings (rt.nodes.map showNode))
+  let live := (a.sock.requests.filter fun r => a.sock.live r st.now).length
+  let cache := ",".intercalate (sortStrings (a.core.cache.iter.map fun p => s!"{hexId p.1}:{kindNo p.2.kind}:{p.2.subnets}:{p.2.nodes.length}"))
+  -- sums are shown without their 12 lowest mantissa bits: lookups that finish in the same tick are
+  -- added in `HashMap` order, and float addition is not associative
+  let hex64 (f : Float) := String.ofList (Nat.toDigits 16 (f.toBits.toNat >>> 12))
+  let stat (s : Stats) := s!"{s.estCount}/{s.respCount}/{s.subnetsSum}/{hex64 s.estSum}/{hex64 s.respSum}"
+  s!"iter=[{ids (a.core.iter.map (·.1))}] puts=[{ids (a.core.puts.map (·.1))}] putsenders=[{cnt a.putSenders}] getsenders=[{cnt a.getSenders}] live={live} raw={a.sock.requests.length} cap={a.sock.cap} to={a.sock.timeout} cache=[{cache}] stats={stat a.core.stats} sstats={stat a.core.sstats} mode={if a.core.serverMode then "s" else "c"}{if a.sockServerMode then "s" else "c"} fw={if a.core.firewalled then 1 else 0} pub={match a.core.publicAddress with | none => "none" | some x => showAddr x} rt=[{table a.core.rt}] srt=[{table a.core.srt}]"
+
+def parseApi (c : Nat) (call : String) (toks : List String) : Option (ApiMsg × Bool) :=
+  let hexOf (k : String) : Option Bytes := (kvOf toks k).bind hx
+  let idOf (k : String) : Option Id := (kvOf toks k).bind fun h => (hexToBytes h).map fun b => (⟨b⟩ : Id)
+  let optHex (k : String) : Option (Option Bytes) := match kvOf toks k with
+    | some "none" => some none
+    | some h => (hx h).map some
+    | none => none
+  let optI (k : String) : Option (Option Int) := (kvOf toks k).bind optInt
+  match call with
+  | "put_imm" => (hexOf "v").map fun v => (.put c (.putImmutable ⟨hashImmutable v⟩ v) [], false)
+  | "put_mut" =>
+    (match hexOf "k", (kvOf toks "seq").bind String.toInt?, hexOf "v", optHex "salt", hexOf "sig", optI "cas" with
+     | some k, some seq, some v, some salt, some sig, some cas =>
+       some (.put c (.putMutable ⟨targetFromKey k salt⟩ v k seq sig salt cas) [], false)
+     | _, _, _, _, _, _ => none)
+  | "announce" =>
+    (match idOf "ih", kvOf toks "port" with
+     | some ih, some "implied" => some (.put c (.announcePeer ih 0 (some true)) [], false)
+     | some ih, some p => p.toNat?.map fun p => (.put c (.announcePeer ih (UInt16.ofNat p) none) [], false)
+     | _, _ => none)
+  | "sannounce" =>
+    (match idOf "ih", hexOf "k", (kvOf toks "t").bind String.toNat?, hexOf "sig" with
+     | some ih, some k, some t, some sig => some (.put c (.announceSignedPeer ih t k sig) [], false)
+     | _, _, _, _ => none)
+  | "get_imm" => (idOf "t").map fun t => (.get (.getValue none none) t (.immutable c), true)
+  | "get_mut" =>
+    (match hexOf "k", optHex "salt", optI "seq" with
+     | some k, some salt, some seq => some (.get (.getValue seq salt) ⟨targetFromKey k salt⟩ (.mutable c), false)
+     | _, _, _ => none)
+  | "get_peers" => (idOf "ih").map fun t => (.get .getPeers t (.peers c), false)
+  | "get_speers" => (idOf "ih").map fun t => (.get .getSignedPeers t (.signedPeers c), false)
+  | "find_node" => (idOf "t").map fun t => (.get .findNode t (.closestNodes c), false)
+  | "closest" => (idOf "t").map fun t => (.get (.getValue none none) t (.closestNodes c), false)
+  | "info" => some (.info c, false)
+  | _ => none
+
+/-- one scheduler step of the model node -/
+def nodeStep (st : DState) (a : Actor) (dgram : Option (Message × Addr)) : DState × Actor :=
+  let (msg, rest) := match st.apiQ with
+    | m :: rest => (some m, rest)
+    | [] => (none, [])
+  ({ st with apiQ := rest }, a.step (nodeEnv st) dgram msg)
+
+def step3 (st : DState) (toks : List String) : DState × String :=
+  match toks with
+  | "case" :: n :: "node" :: rest =>
+    (match (kvOf rest "seed").bind String.toNat?, (kvOf rest "t0").bind String.toNat? with
+     | some seed, some t0 =>
+       let boot : List Addr := match kvOf rest "boot" with
+         | some "-" | none => []
+         | some l => (l.splitOn ",").filterMap parseAddr
+       let pubIp : Option UInt32 := match kvOf rest "pub" with
+         | some "-" | none => none
+         | some ip => ip.toNat?.map UInt32.ofNat
+       let caps : Nat × Nat × Nat × Nat := match kvOf rest "caps" with
+         | some c => (match (c.splitOn ",").filterMap String.toNat? with
+           | [a, b, c, d] => (a, b, c, d)
+           | _ => (0, 0, 0, 0))
+         | none => (0, 0, 0, 0)
+       let cfg : NodeConfig := { serverMode := kvOf rest "mode" == some "s", bootstrap := boot, publicIp := pubIp, caps }
+       let a := Actor.create cfg (UInt64.ofNat (seed ||| 1)) t0
+       let ip : UInt32 := pubIp.getD 167772161
+       ({ now := t0, actor := some a, nodeAddr := ⟨ip, 6881⟩ }, "case " ++ n)
+     | _, _ => (st, "bad-op"))
+  | ["init"] =>
+    (match st.actor with
+     | some a =>
+       if a.out.isEmpty then
+         -- the harness learns the id through an `info` call, which costs one loop iteration
+         let (st, a) := nodeStep st a none
+         let (st, _) := nodeFlush st a
+         (st, s!"id={bytesToHex a.id.bytes} via=info")
+       else
+         let (st, line) := nodeFlush st a
+         (st, s!"id={bytesToHex a.id.bytes} {line}")
+     | none => (st, "bad-op"))
+  | ["know", k, msg, sig] => (match hexToBytes k, hx msg, hexToBytes sig with
+      | some k, some msg, some sig => ({ st with sigs := (k, msg, sig) :: st.sigs }, "ok")
+      | _, _, _ => (st, "bad-op"))
+  | "api" :: c :: call :: rest =>
+    (match (c.drop 1).toString.toNat?, st.actor with
+     | some c, some _ =>
+       (match parseApi c call rest with
+        | some (m, isImm) =>
+          ({ st with apiQ := st.apiQ ++ [m], immCallers := if isImm then c :: st.immCallers else st.immCallers }, "ok")
+        | none => (st, "bad-op"))
+     | _, _ => (st, "bad-op"))
+  | "step" :: rest =>
+    (match st.actor with
+     | none => (st, "bad-op")
+     | some a =>
+       if rest.isEmpty then
+         let (st, a) := nodeStep st a none
+         (nodeFlush st a)
+       else
+         match (kvOf rest "from").bind parseAddr with
+         | none => (st, "bad-op")
+         | some src =>
+           match kvOf rest "raw" with
+           | some raw =>
+             (match hx raw with
+              | some bytes =>
+                let dgram := match Krpc.fromBytes bytes with
+                  | .ok (some m) => some (m, src)
+                  | _ => none
+                let (st, a) := nodeStep st a dgram
+                nodeFlush st a
+              | none => (st, "bad-op"))
+           | none =>
+             let tid : Option Nat := match kvOf rest "re", kvOf rest "tid" with
+               | some k, _ => (st.nreqs.find? (·.1 == k)).map (·.2)
+               | none, some n => n.toNat?
+               | _, _ => none
+             match tid, (kvOf rest "msg").bind hx with
+             | some tid, some bytes =>
+               let dgram := match Krpc.fromBytes bytes with
+                 | .ok (some m) => some ({ m with tid := UInt32.ofNat tid }, src)
+                 | _ => none
+               let (st, a) := nodeStep st a dgram
+               nodeFlush st a
+             | none, _ => (st, "no-such-request")
+             | _, none => (st, "bad-op"))
+  | ["dbgto"] => (st, match st.actor with
+      | some a => s!"to={a.sock.timeout} est={a.rtt.est} dev={a.rtt.dev} cap={a.sock.cap} reqs={a.sock.requests.map fun r => (r.tid, r.to.ip.toNat % 256, (st.now - r.sentAt) / 1000000)} keys={st.nreqs.map fun p => ((p.1.splitOn "/").head!, p.2)}"
+      | none => "none")
+  | [op] =>
+    if op == "snap" || op == "quiet" then
+      match st.actor with
+      | some a =>
+        -- the snapshot request queues behind the API calls already sent: one message per iteration
+        let n := st.apiQ.length + 1
+        let st := { st with apiQ := st.apiQ ++ [.noop] }
+        let (st, a) := (List.range n).foldl (fun (acc : DState × Actor) _ => nodeStep acc.1 acc.2 none) (st, a)
+        let snap := showSnapshot st a
+        let (st, line) := nodeFlush st a
+        (st, snap ++ " " ++ line)
+      | none => (st, "dead")
+    else (st, "bad-op")
+  | _ => (st, "bad-op")
+
 def step (st : DState) (line : String) : DState × String :=
   match line.trimAscii.toString.splitOn " " with
   | ["case", n, "closest", t] => (match hx t with
@@ -282,6 +517,7 @@ def step (st : DState) (line : String) : DState × String :=
         let (t, rng) := Tokens.new (UInt64.ofNat seed) 0
         ({ tokens := some t, rng := rng, t0 := t0 }, "case " ++ n)
       | _, _ => (st, "bad-op"))
+  | "case" :: n :: "node" :: rest => step3 {} ("case" :: n :: "node" :: rest)
   | "case" :: n :: "socket" :: rest => step2 {} ("case" :: n :: "socket" :: rest)
   | "case" :: n :: "putq" :: rest => step2 {} ("case" :: n :: "putq" :: rest)
   | "case" :: n :: _ => ({}, "case " ++ n)
@@ -447,7 +683,7 @@ def step (st : DState) (line : String) : DState × String :=
         let (rnd, _) := rngFill 21 (UInt64.ofNat seed)
         bytesToHex (Id.fromIpv4 rnd (UInt32.ofNat ip)).bytes
       | _, _ => "bad-op")
-  | toks => step2 st toks
+  | toks => if st.actor.isSome then step3 st toks else step2 st toks
 
 partial def loop (h : IO.FS.Stream) (out : IO.FS.Stream) (st : DState) : IO Unit := do
   let line ← h.getLine
